@@ -77,12 +77,71 @@ struct SpinBarrier {
 // enumeration order these mostly share the operation and template instantiation
 // and differ in the data) are executed at the very same time.  lockstep = false:
 // every thread sweeps all cases on its own, starting at a different offset.
-static int threadedMain(int nthreads, const char *casesPath, const std::string &prefix, bool lockstep) {
+//
+// schedule "fresh": no filling pass.  The sequential log comes from a run in
+// which every case builds its own operands; then all threads run the SAME case
+// in every phase and build the shared objects themselves (under a lock), so the
+// first use of every shared object - when lazily initialised state would be
+// filled - happens in all threads at once.  The use counts after the join are
+// compared with those of the same procedure run by a single thread.
+static int freshMain(int nthreads, const std::vector<std::string> &cases, const std::string &prefix,
+                     void (*dump)(const std::string &, const std::vector<std::string> &)) {
+  opCache().mode = 0;
+  std::vector<std::string> seq;
+  for (const auto &c : cases) seq.push_back(runCase(c));
+  dump(prefix + ".seq", seq);
+  auto pass = [&](int nt, std::vector<std::vector<std::string>> &outs) {
+    opCache().objs.clear();
+    opCache().gridAudits.clear();
+    opCache().refs.clear();
+    opCache().mode = 3;
+    outs.assign(nt, std::vector<std::string>(cases.size()));
+    SpinBarrier barrier(nt);
+    std::vector<std::thread> ths;
+    for (int t = 0; t < nt; t++) {
+      ths.emplace_back([&, t] {
+        for (size_t i = 0; i < cases.size(); i++) {
+          barrier.wait();
+          outs[t][i] = runCase(cases[i]);
+        }
+      });
+    }
+    for (auto &th : ths) th.join();
+    std::vector<long> counts;
+    for (auto &audit : opCache().gridAudits) counts.push_back(audit().first);
+    return counts;
+  };
+  std::vector<std::vector<std::string>> outs, ref;
+  const std::vector<long> got = pass(nthreads, outs);
+  for (int t = 0; t < nthreads; t++) dump(prefix + ".t" + std::to_string(t), outs[t]);
+  const std::vector<long> want = pass(1, ref);
+  json q = json::array();
+  if (got.size() != want.size()) q.push_back(json::array({static_cast<long>(got.size()), static_cast<long>(want.size())}));
+  for (size_t i = 0; i < got.size() && i < want.size(); i++) q.push_back(json::array({got[i], want[i]}));
+  dump(prefix + ".quiescent", {q.dump()});
+  return 0;
+}
+
+static void dumpLines(const std::string &path, const std::vector<std::string> &lines) {
+  FILE *f = std::fopen(path.c_str(), "w");
+  for (const auto &s : lines) {
+    std::fwrite(s.data(), 1, s.size(), f);
+    std::fputc('\n', f);
+  }
+  std::fclose(f);
+}
+
+static int threadedMain(int nthreads, const char *casesPath, const std::string &prefix, bool lockstep, bool fresh = false) {
+#ifndef VH_CONST_OPERANDS
+  std::fprintf(stderr, "vh: threaded mode needs a build with -DVH_CONST_OPERANDS (operands are shared between threads)\n");
+  return 3;
+#endif
   std::ifstream in(casesPath);
   if (!in) return 2;
   std::vector<std::string> cases;
   for (std::string l; std::getline(in, l);)
     if (!l.empty()) cases.push_back(l);
+  if (fresh) return freshMain(nthreads, cases, prefix, dumpLines);
   auto dump = [](const std::string &path, const std::vector<std::string> &lines) {
     FILE *f = std::fopen(path.c_str(), "w");
     for (const auto &s : lines) {
@@ -128,7 +187,8 @@ static int threadedMain(int nthreads, const char *casesPath, const std::string &
 int main(int argc, char **argv) {
   if (argc >= 5 && std::string(argv[1]) == "--threads") {
     std::set_terminate(onTerminate);
-    return threadedMain(std::atoi(argv[2]), argv[3], argv[4], argc >= 6 && std::string(argv[5]) == "lockstep");
+    return threadedMain(std::atoi(argv[2]), argv[3], argv[4], argc >= 6 && std::string(argv[5]) == "lockstep",
+                        argc >= 6 && std::string(argv[5]) == "fresh");
   }
   if (argc < 3) {
     std::fprintf(stderr, "usage: vh cases.ndjson trace.ndjson [skip]\n");
